@@ -569,7 +569,7 @@ func runTxStamp(h *wafHandle, s *TxScript, stamp *int64) *Outcome {
 func init() {
 	register(&Check{
 		ID: "C19", Level: "exploration", NeedsRace: true, Isolated: true, Run: c19Run,
-		Runs:       [2]int{8000, 200000},
+		Runs:       [2]int{8000, 600000},
 		MaxSeconds: [2]int{120, 1700},
 		Rule: "one run is either (part 1, 60%) a decision-table scenario: generated rules with log|nolog|auditlog|noauditlog combinations, chains, interruptions, On|DetectionOnly, audit engine On|RelevantOnly|Off optionally switched by ctl:auditEngine, relevant-status pattern, parts (optionally changed by ctl:auditLogParts), Native|JSON format, headers with newlines / boundary look-alikes / non-UTF-8, 1-3 transactions on a recording writer registered through the plugin API; " +
 			"checked: exactly one record iff engine On or (RelevantOnly and real / would-be / response status matches), record well-formed (JSON: one parseable line carrying the id; Native: one marker per configured part with one boundary), rules listed under part K = fired audit-enabled rules, error callback once per fired rule with logging enabled; " +
